@@ -221,6 +221,16 @@ NEEDS = {
  'C15-5A': ('failed write pass clears connected', 'the server closing the status connection before the query is written'),
  'C16-5A': ('final check-and-disconnect of _handle_exception no longer under the lock', "a user connect() in the window at the end of a failing thread's handling"),
  'C18-5A': ('cipher installed only if an "encrypted" flag is clear; the flag survives an abnormal end', 'a handler that reconnects with connect() after an encrypted session died'),
+ 'C02-6A': ('String.read decodes through one module-level incremental UTF-8 decoder (final=False)', 'one malformed string ending inside a multi-byte sequence, then any valid string anywhere in the process'),
+ 'C03-6A': ('VarInt.read stashes the progress of a read interrupted by TimeoutError/BlockingIOError in a class-level dict keyed by id(stream)', 'a timeout inside a multi-byte number, then another decode on a stream with the same identity'),
+ 'C04-6A': ('Position caches (context object, z-before-y flag) at class level', 'one context object used on one side of the 1.14 switch, re-assigned to the other side, used again with no other context in between'),
+ 'C05-6A': ('PrefixedArray.*_with_context skips the context when the element type is a Type instance', 'a user-defined packet with an array nested two deep whose leaf needs the context'),
+ 'C06-6A': ('Packet.id memoised per packet object while the context object stays the same', 'a packet whose id was looked at, then its context re-assigned to another version, then the packet used again'),
+ 'C07-6A': ('protocol_earlier/_eq look indices up through a module-level one-entry memo (_last_version, _last_index)', 'two threads comparing different versions with a switch inside the memo update'),
+ 'C08-6A': ('three-way compare helper short-cuts equality with `is`, else answers by index order without an equal case', 'two equal protocol numbers above 256 held as distinct int objects'),
+ 'C17-6A': ('LoginReactor strips the server id before the offline test and hashes the stripped id', 'an encryption request whose server id has leading or trailing whitespace'),
+ 'C19-6A': ('Profile.to_dict() builds its dictionary once and keeps it', 'join, then a refresh/authenticate that changes the profile, then join again'),
+ 'C20-6A': ('MapPacket.apply_to_map fast path for full-width updates assigns pixels[start:] without an end bound', 'a 128-column update at x offset 0 that ends above the last row'),
 }
 
 
